@@ -67,6 +67,9 @@ CHECKS = {
  "C16": dict(technique="%s; Sampler-heavy generator and TLV-derived legacy variants" % FMT,
              text="RVFormat's Sampler section (header struct at documented offsets, 44-byte sample records, waveform chunks, seven envelope chunks, effect synth, legacy conversion) is the oracle for generated samplers (all slots incl. 127, all format x channel combinations, envelopes up to 40 points, full note maps, field limits) and for legacy variants derived through the TLV layer.",
              ref="5/C16"),
+ "C17": dict(technique="TLA+ isolation spec (RVIsolation: NoSharing over reachable mutable cells, frame condition) model-checked by TLC for copy and alias constructor policies; heap-identity snapshots and mutation probes of real objects judged by the trace spec",
+             text="MC_RVIsolation shows NoSharing and the frame condition hold iff every constructor/clone policy copies (the alias configuration is run as a self-test and must be rejected). On real objects of every type (B constructed, cloned from A, or loaded from the same bytes; projects; every fixture loaded twice) the harness logs the identities of all mutable containers reachable from instance state and from class attributes / default arguments, and digests of the other object's projection and bytes around every catalogue mutation, clone, load and bulk edit; TLC evaluates NoSharing, class-state immutability and equality of the digests.",
+             ref="5/C17"),
 }
 PENDING = {}
 props = [json.loads(l) for l in open(os.path.join(HERE, "properties.jsonl"))]
